@@ -419,3 +419,31 @@ package cache
 //@   ensures [both-br]   err == nil && old(compressible(resp)) ==> len(resp.BrBody) != 0
 //@   ensures [raw]   err == nil && old(consistent(resp)) ==> rawOf(resp) == old(rawOf(resp)) && consistent(resp)
 //@   ensures [once]  $enc <= old($enc) + 2
+
+// ---- registry of dispatchers (live reconfiguration, C16) -----------------------------------
+
+//@ typeinv dispatchers(ds) by NewDispatchers: ds.m != nil
+//@ immutable dispatchers: m
+//@ pred configuredName(opts []DispatcherOption, name string) := exists i int :: 0 <= i && i < len(opts) && opts[i].Name == name
+
+// the predicate handed to MapDelete: delete the names that are no longer configured
+//@ func (ds *dispatchers) Reset$1(key string) (del bool)
+//@   requires [opts] opts != nil
+//@   effectfree
+//@   ensures [def] del <==> !configuredName(deref(opts), key)
+//@   loop 0: invariant [idx]  -1 <= $idx && $idx < len(opts)
+//@   loop 0: invariant [none] forall k int :: 0 <= k && k <= $idx ==> opts[k].Name != key
+
+//@ func (ds *dispatchers) Reset(opts []DispatcherOption)
+//@   requires [recv] ds != nil
+//@   modifies ds.m.dom, ds.m.vals
+//@   ensures [exact]     forall k any :: typeis(k, "string") ==> (ds.m.dom[k] <==> configuredName(opts, unbox(k, "string")))
+//@   ensures [survivors] forall k any :: old(ds.m.dom[k]) && ds.m.dom[k] ==> ds.m.vals[k] == old(ds.m.vals[k])
+//@   ensures [others]    forall k any :: !typeis(k, "string") ==> ds.m.dom[k] == old(ds.m.dom[k])
+//@   loop 0: modifies ds.m.dom, ds.m.vals
+//@   loop 0: invariant [idx]   -1 <= $idx && $idx < len(opts) && ds.m != nil
+//@   loop 0: invariant [keep]  forall k any :: typeis(k, "string") && !configuredName(opts, unbox(k, "string")) ==> !ds.m.dom[k]
+//@   loop 0: invariant [added] forall j int :: 0 <= j && j <= $idx ==> ds.m.dom[box(opts[j].Name)]
+//@   loop 0: invariant [kept]  forall k any :: old(ds.m.dom[k]) && typeis(k, "string") && configuredName(opts, unbox(k, "string")) ==> ds.m.dom[k]
+//@   loop 0: invariant [survivors] forall k any :: old(ds.m.dom[k]) && ds.m.dom[k] ==> ds.m.vals[k] == old(ds.m.vals[k])
+//@   loop 0: invariant [others] forall k any :: !typeis(k, "string") ==> ds.m.dom[k] == old(ds.m.dom[k])
